@@ -154,8 +154,10 @@ def iter_shard(sh):
         _, k = sh
         for mn in NEST_MAX:
             for preset in ("commonmark", "js-default"):
-                c = C.cfg(preset, {"maxNesting": mn}, enable=["strikethrough"] if preset == "commonmark" else [])
-                for depth in sorted(set(list(range(0, min(mn, 24) + 3)) + [mn - 1, mn, mn + 1, mn + 2, 500, 2000])):
+                c = C.cfg(preset, {"maxNesting": mn}, enable=["strikethrough", "table"] if preset == "commonmark" else [])
+                if k.startswith("table_") and mn != 20:
+                    continue
+                for depth in sorted(set(list(range(0, min(mn, 24) + 3)) + [mn - 1, mn, mn + 1, mn + 2, 257, 500, 2000])):
                     if depth < 0:
                         continue
                     yield c, "doc", S.nest(k, depth)
